@@ -21,6 +21,12 @@ SafeMul(a, b) == IF a < 0 \/ b < 0 THEN FAIL
 SafeAdd(a, b) == IF a < 0 THEN a ELSE IF b < 0 THEN b
                  ELSE IF a > MaxInt - b THEN OVER ELSE a + b
 
+\* signed product representable in TLC's integers
+\* (IF, not \/: inside an action TLC evaluates every disjunct)
+MulOK(a, b) == IF a = 0 \/ b = 0 THEN TRUE ELSE (IF a < 0 THEN -a ELSE a) <= MaxInt \div (IF b < 0 THEN -b ELSE b)
+\* amounts above this are outside what the specification judges (20 000.00 units at D = 100)
+AmtCap == 2000000
+
 Min(a, b) == IF a < b THEN a ELSE b
 Max(a, b) == IF a > b THEN a ELSE b
 Abs(a)    == IF a < 0 THEN -a ELSE a
